@@ -783,24 +783,55 @@ func (f *transformationCallable) updateEntries(item reflect.Value) error {
 		return newEvalError(ErrIllegalUpdate, f.updates, nil)
 	}
 
-	// Insert a copy of the updates. The update expression can
-	// refer to the object it is applied to (e.g. {"b": $}).
-	// Inserting those values as they are would make the object
-	// contain itself.
-	updates, err = f.clone(updates)
-	if err != nil {
-		return newEvalError(ErrClone, nil, nil)
-	}
-
 	// The map may be wrapped in an interface (e.g. when it
 	// is an element of an array).
 	updates = jtypes.Resolve(updates)
 
-	for _, key := range updates.MapKeys() {
-		item.SetMapIndex(key, updates.MapIndex(key))
+	// Insert copies of the updates. The update expression can
+	// refer to the object it is applied to (e.g. {"b": $}).
+	// Inserting those values as they are would make the object
+	// contain itself. Only the containers are copied: values
+	// such as functions are inserted as they are.
+	keys := updates.MapKeys()
+	values := make([]reflect.Value, len(keys))
+
+	for i, key := range keys {
+		v := updates.MapIndex(key)
+		if v.CanInterface() {
+			if c := copyContainers(v.Interface()); c != nil {
+				v = reflect.ValueOf(c)
+			}
+		}
+		values[i] = v
+	}
+
+	for i, key := range keys {
+		item.SetMapIndex(key, values[i])
 	}
 
 	return nil
+}
+
+// copyContainers returns a copy of a JSON-like value in
+// which the objects and arrays are new and all other values
+// are the original ones.
+func copyContainers(v interface{}) interface{} {
+	switch v := v.(type) {
+	case map[string]interface{}:
+		m := make(map[string]interface{}, len(v))
+		for key, value := range v {
+			m[key] = copyContainers(value)
+		}
+		return m
+	case []interface{}:
+		s := make([]interface{}, len(v))
+		for i, value := range v {
+			s[i] = copyContainers(value)
+		}
+		return s
+	default:
+		return v
+	}
 }
 
 func (f *transformationCallable) deleteEntries(item reflect.Value) error {
